@@ -35,7 +35,7 @@ RULE = ("history world = seeded terminal profile + <= max_ops operations; concur
         "2-4 tasks x seeded schedule making first calls; non-trivial = a get, an invalidating "
         "event and another get at an unchanged terminal size occur in that order, or >= 2 tasks "
         "were inside a first call; distinct = hash of the operation list / schedule")
-PROBES = ["toggle_then_get_at_unchanged_size", "resize_then_get", "pixel_only_change",
+PROBES = ["resize_during_cell_size_query", "toggle_then_get_at_unchanged_size", "resize_then_get", "pixel_only_change",
           "reenable_queries_discards_disabled_results", "dynamic_ratio_follows_resize",
           "fixed_ratio_survives_resize", "memo_body_once", "terminal_size_cached_recomputed",
           "concurrent_first_calls", "task_waited_on_memo_lock", "auto_ratio_unsupported"]
@@ -128,7 +128,7 @@ def run_history(ch, ctx, fault):
             op = ch.weighted("op", [
                 (5, "resize"), (2, "pixels"), (2, "swap_on"), (2, "swap_off"), (1, "q_off"),
                 (2, "q_on"), (3, "set_ratio"), (6, "cell"), (5, "ratio"), (2, "colors"),
-                (2, "namever"), (3, "memo"), (3, "tsc"), (1, "inval_memo"),
+                (2, "namever"), (3, "memo"), (3, "tsc"), (1, "inval_memo"), (2, "cell_race"),
             ])
             desc = op
             if op == "resize":
@@ -217,6 +217,31 @@ def run_history(ch, ctx, fault):
                 got = utils.get_cell_size()
                 got = got and tuple(got)
                 desc = "get_cell_size() -> %r" % (got,)
+                check_cell(got, desc)
+                note_get("cell")
+            elif op == "cell_race":
+                # the terminal is re-flowed while a cell-size computation is in flight: whatever
+                # that call returns, it must not leave a value filed under a terminal size it
+                # was not computed for - the NEXT call has to equal a fresh computation
+                c2, r2 = ch.skewed("cols2", 1, 200), ch.skewed("rows2", 1, 60)
+                if (c2, r2) == (vt.cols, vt.rows):
+                    c2 = c2 + 1
+                when = ch.int("race_at", 1, 20_000_000)
+
+                def reflow(c2=c2, r2=r2):
+                    vt.resize(r2, c2)
+                k.after(when, reflow, "reflow")
+                utils.get_cell_size()
+                if vt.cols != c2 or vt.rows != r2:      # the call returned before the event
+                    k.advance(when)
+                model.cell = None
+                cell_ambiguous[0] = None
+                note_invalidate()
+                got = utils.get_cell_size()
+                got = got and tuple(got)
+                desc = "re-flow to %dx%d during get_cell_size(); next get_cell_size() -> %r" % (
+                    c2, r2, got)
+                ctx.probe("resize_during_cell_size_query")
                 check_cell(got, desc)
                 note_get("cell")
             elif op == "ratio":
